@@ -7,9 +7,9 @@ MODULES = ["Mimium.Props.C11"]
 
 def new_stats():
     return {"evaluations": 0, "nontrivial": set(), "disagreements": 0, "impl_property_failures": 0, "samples": [],
-            "handle_cases": 0, "handle_panic_cases": 0, "handle_order_exact": 0, "old_discipline_deviates": 0,
+            "handle_cases": 0, "handle_panic_cases": 0, "handle_order_exact": 0, "old_discipline_deviates": 0, "old_discipline_not_evaluated": 0,
             "old_discipline_samples": [], "prog_cases": 0, "prog_upv_cases": 0, "prog_upv_old_deviates": 0,
-            "prog_closure_style": 0, "prog_closure_style_multi": 0, "prog_boundary_cases": 0,
+            "prog_closure_style": 0, "prog_deep_capture": 0, "prog_closure_style_multi": 0, "prog_boundary_cases": 0,
             "prog_boundary_same_kind": 0, "prog_boundary_vm_late_by_one": 0, "prog_compile_errors": 0,
             "execs_hist": collections.Counter(), "maxpertick_hist": collections.Counter(), "ops_hist": collections.Counter(),
             "boundary_samples": []}
@@ -84,6 +84,7 @@ def compare_stream(ctx, name, mmh_args, stats, stdin_data=None):
             # tables with `selK(t, v)` requests: closures with one upvalue, records of two cells on WASM
             has_upv = ":u" in table
             stats["prog_upv_cases"] += has_upv
+            stats["prog_deep_capture"] += f[2].endswith("d")
             if f[2].endswith("c"):
                 stats["prog_closure_style"] += 1
                 stats["prog_closure_style_multi"] += int(f[2][:-1]) > 1
@@ -122,7 +123,9 @@ def compare_stream(ctx, name, mmh_args, stats, stdin_data=None):
             if mvm != mwasm:
                 problems.append(dict(rec, level="model-sanity"))
                 continue
-            if mmem != ideal:
+            if mmem == "-":
+                stats["old_discipline_not_evaluated"] += 1
+            elif mmem != ideal:
                 stats["old_discipline_deviates"] += 1
                 stats["prog_upv_old_deviates"] += has_upv
                 if len(stats["old_discipline_samples"]) < 1:
@@ -309,7 +312,7 @@ def main(ctx, args):
     ctx.coverage.update({
         "evaluations": stats["evaluations"],
         "distinct_nontrivial": len(stats["nontrivial"]),
-        "rule": "handle level: random op histories (schedule f64 time/closure id, tick) against the real WasmSchedulerHandle, judged by the Lean model (same panics, same multiset per drain, pop order non-decreasing in time); program level: random task tables (1-4 counter tasks; requests from global scope, task bodies, dsp; absolute/relative, fractional, equal, far-future times; guarded chains; 1 table in 3 also schedules closures capturing a float, `selK(t, v)`: records of two cells on WASM) compiled from mimium source and run on VM and WASM for N samples, per-sample outputs vs both models; non-trivial = at least one task was executed (or a request was rejected); distinct = distinct history / table text",
+        "rule": "handle level: random op histories (schedule f64 time/closure id, tick) against the real WasmSchedulerHandle, judged by the Lean model (same panics, same multiset per drain, pop order non-decreasing in time); program level: random task tables (1-4 counter tasks; requests from global scope, task bodies, dsp; absolute/relative, fractional, equal, far-future times; guarded chains; 1 table in 3 also schedules closures capturing a float, `selK(t, v)`: records of two cells on WASM; half of those through a `let`-bound closure or a tuple argument; 1 in 12 tables is 1-3 `letrec` counters made by one `mk`) compiled from mimium source and run on VM and WASM for N samples, per-sample outputs vs both models; non-trivial = at least one task was executed (or a request was rejected); distinct = distinct history / table text",
         "samples": stats["samples"][:6] or [{"note": "no sample in replay mode"}],
         "traces_validated_against_impl": stats["evaluations"],
         "model_impl_disagreements": stats["disagreements"],
@@ -322,9 +325,11 @@ def main(ctx, args):
         },
         "std_binaryheap_port_pop_order_exact": stats["handle_order_exact"],
         "closures_with_upvalue_records_of_two_cells": {"programs": stats["prog_upv_cases"],
-                                                        "of_which_sensitive_to_record_lifetime": stats["prog_upv_old_deviates"]},
+                                                        "of_which_sensitive_to_record_lifetime": stats["prog_upv_old_deviates"],
+                                                        "of_which_rendered_with_deeper_captures_let_bound_closure_or_tuple_argument": stats["prog_deep_capture"]},
         "closure_style_programs": {"programs": stats["prog_closure_style"], "with_2_or_3_instances_of_one_maker": stats["prog_closure_style_multi"]},
         "repaired_finding_F17": {"programs_sensitive_to_record_lifetime": stats["old_discipline_deviates"],
+                                 "programs_where_the_old_model_was_too_costly_to_evaluate": stats["old_discipline_not_evaluated"],
                                  "meaning": "the memory model of the old discipline (records freed with the body that made them, Model/SchedMem.lean) deviates from ideal on these programs; WASM must be ideal on them now",
                                  "sample": stats["old_discipline_samples"][:1]},
         "boundary_cases_reported_separately": {
